@@ -286,7 +286,7 @@ func hostileRequest(c *worker.Ctx, i int) reqSpec {
 
 func runC08(c *worker.Ctx) {
 	res := c.Res
-	workload := c.T.Draw(9)
+	workload := c.T.Draw(11)
 	if v := os.Getenv("FALCOSIM_C08_WORKLOAD"); v != "" { // debugging aid: force one workload family
 		fmt.Sscanf(v, "%d", &workload)
 	}
@@ -334,6 +334,14 @@ func runC08(c *worker.Ctx) {
 	case 7:
 		vcl, wdesc = directorProgram(c), "director"
 		boundary = true
+	case 9, 10: // W5: predefined variables × scopes × request paths
+		var names string
+		vcl, names = variableProgram(c)
+		wdesc = "variables:" + names
+		boundary = true
+		if vcl == "" {
+			vcl, wdesc = recursionProgram(c), "recursion"
+		}
 	default: // self-loop: the origin is the simulator itself
 		p := &programL{B: map[string]subBehaviour{}, Cacheable: false, TTL: 10 * time.Second}
 		if c.T.Bool(1, 2) {
@@ -446,7 +454,7 @@ func runC08(c *worker.Ctx) {
 		switch {
 		case r.PanicV != nil:
 			term = "panic"
-			res.Violate("C08/no-crash", "C08/panic:"+r.Stack+":"+clip(numRe.ReplaceAllString(fmt.Sprint(r.PanicV), "N"), 70), fmt.Sprintf("request %d (%s %q) crashed the simulator: %v\nworkload %s\nprogram:\n%s", i, r.Spec.Method, clip(r.Spec.URL, 60), r.PanicV, wdesc, vcl))
+			res.Violate("C08/no-crash", "C08/panic:"+r.Stack+":"+clip(numRe.ReplaceAllString(fmt.Sprint(r.PanicV), "N"), 70), fmt.Sprintf("request %d (%s %q) crashed the simulator: %v\nat %s\nworkload %s\nprogram:\n%s", i, r.Spec.Method, clip(r.Spec.URL, 60), r.PanicV, r.Trace, wdesc, vcl))
 		case r.Spin:
 			term = "spin"
 			res.Violate("C08/bounded", "C08/unbounded:"+r.Budget+":"+wclass+":"+r.Stack, fmt.Sprintf("request %d exceeded the %s budget (steps=%d, resolves=%d): it does not terminate\nworkload %s\nprogram:\n%s\nmodules: %v", i, r.Budget, r.Steps, w.store.Calls, wdesc, vcl, modules))
